@@ -1,3 +1,4 @@
+import CkcVerif.Props.C02
 import CkcVerif.Lemmas.SubHands
 /-!
 # C09 — more cards never weaken a hand: seven ≤ every six-subset ≤ every five-subset
@@ -41,8 +42,20 @@ theorem C09_chain {cs g f : List Card} (h : IsHand 7 cs) (hg : g ∈ combos 6 cs
 
 example : IsHand 7 [⟨0, 0⟩, ⟨12, 3⟩, ⟨5, 1⟩, ⟨11, 3⟩, ⟨10, 3⟩, ⟨9, 3⟩, ⟨8, 3⟩] := ⟨rfl, by decide, by decide⟩
 
+/-- the whole chain in terms of strength: the best five of the seven cards is at least as strong as the
+    best five of any six of them, which is at least as strong as any five of those six -/
+theorem C09_strength_chain {cs g f : List Card} (h : IsHand 7 cs) (hg : g ∈ combos 6 cs) (hf : f ∈ combos 5 g) :
+    handStrength f ≤ bestStrength g ∧ bestStrength g ≤ bestStrength cs := by
+  have hg6 := sub_hand h hg
+  obtain ⟨_, b6, hb6, _, _, _, _, _, _, hs6, e6⟩ := C02.C02_best_of (Or.inl rfl) hg6
+  obtain ⟨_, b7, hb7, _, _, _, _, _, _, hs7, e7⟩ := C02.C02_best_of (Or.inr rfl) h
+  rw [e6, e7]
+  refine ⟨hs6 f hf, ?_⟩
+  exact hs7 b6 (combos_sub 5 g cs b6 ((mem_combos 6 cs g).mp hg).1 hb6)
+
 end C09
 
 #print axioms C09.C09_six_vs_five
 #print axioms C09.C09_seven_vs_six
 #print axioms C09.C09_chain
+#print axioms C09.C09_strength_chain
